@@ -11,6 +11,14 @@ package messages
 //@ ghost var nat0 string
 //@ ghost var type0 string
 //@ ghost var fp0 string
+//@ ghost var jsonOK bool
+//@ ghost var sid0 string
+//@ ghost var ans0 string
+//@ ghost var clients0 int
+//@ ghost var status0 string
+//@ ghost var offer0 string
+//@ ghost var relay0 string
+//@ ghost var err0 string
 //
 //@ func DecodeProxyPollRequestWithRelayPrefix(data []byte) (sid string, proxyType string, natType string, clients int, relayPrefix string, relayPrefixAware bool, err error)
 //@   props C12, C03
@@ -25,6 +33,11 @@ package messages
 //@   ensures {given-nat-is-kept} err == nil && nat0 != "" ==> natType == nat0
 //@   ensures {invalid-nat-rejected} nat0 != "" && nat0 != "unknown" && nat0 != "restricted" && nat0 != "unrestricted" ==> err != nil
 //@   ensures {unrecognised-type-means-unknown} err == nil ==> proxyType == type0 || proxyType == "unknown"
+//@   after call Unmarshal ghost jsonOK = ret0 == nil
+//@   after call Unmarshal ghost sid0 = message.Sid
+//@   after call Unmarshal ghost clients0 = message.Clients
+//@   ensures {returns-the-decoded-fields} err == nil ==> sid == sid0 && clients == clients0
+//@   ensures {accepts-every-valid-poll} jsonOK && major == "1" && sid0 != "" && (nat0 == "" || nat0 == "unknown" || nat0 == "restricted" || nat0 == "unrestricted") ==> err == nil
 //
 //@ func DecodeAnswerRequest(data []byte) (answer string, sid string, err error)
 //@   props C12
@@ -32,15 +45,33 @@ package messages
 //@   after call Split ghost major = ret0[0]
 //@   ensures {major-version-1} err == nil ==> major == "1"
 //@   ensures {sid-and-answer-required} err == nil ==> sid != "" && answer != ""
+//@   after call Unmarshal ghost jsonOK = ret0 == nil
+//@   after call Unmarshal ghost sid0 = message.Sid
+//@   after call Unmarshal ghost ans0 = message.Answer
+//@   ensures {returns-the-decoded-fields} err == nil ==> sid == sid0 && answer == ans0
+//@   ensures {accepts-every-valid-answer} jsonOK && major == "1" && sid0 != "" && ans0 != "" ==> err == nil
 //
 //@ func DecodeAnswerResponse(data []byte) (success bool, err error)
 //@   props C12
-//@   ensures {empty-status-rejected} err == nil ==> true
+//@   after call Unmarshal ghost jsonOK = ret0 == nil
+//@   after call Unmarshal ghost status0 = message.Status
+//@   ensures {empty-status-rejected} jsonOK && status0 == "" ==> err != nil
+//@   ensures {success-iff-status-success} err == nil ==> success == (status0 == "success")
+//@   ensures {accepts-every-status} jsonOK && status0 != "" ==> err == nil
 //
 //@ func DecodePollResponseWithRelayURL(data []byte) (offer string, natType string, relayURL string, err error)
 //@   props C12
 //@   after call Unmarshal ghost nat0 = message.NAT
 //@   ensures {missing-nat-means-unknown} nat0 == "" && natType != "" ==> natType == "unknown"
+//@   after call Unmarshal ghost jsonOK = ret0 == nil
+//@   after call Unmarshal ghost status0 = message.Status
+//@   after call Unmarshal ghost offer0 = message.Offer
+//@   after call Unmarshal ghost relay0 = message.RelayURL
+//@   ensures {match-returns-the-decoded-fields} jsonOK && status0 == "client match" && offer0 != "" ==> err == nil && offer == offer0 && relayURL == relay0 && natType == ite(nat0 == "", "unknown", nat0)
+//@   ensures {match-without-offer-rejected} jsonOK && status0 == "client match" && offer0 == "" ==> err != nil
+//@   ensures {no-match-is-an-empty-offer-without-error} jsonOK && status0 == "no match" ==> err == nil && offer == ""
+//@   ensures {any-other-status-is-an-error} jsonOK && status0 != "client match" && status0 != "no match" ==> err != nil
+//@   ensures {offer-only-on-match} offer != "" ==> status0 == "client match"
 //
 //@ func DecodeClientPollRequest(data []byte) (req *ClientPollRequest, err error)
 //@   props C12, C03
@@ -54,8 +85,38 @@ package messages
 //@   ensures {missing-fingerprint-means-default-bridge} err == nil && fp0 == "" ==> req.Fingerprint == defaultBridgeFingerprint
 //@   ensures {given-fingerprint-is-kept} err == nil && fp0 != "" ==> req.Fingerprint == fp0
 //@   ensures {fingerprint-was-checked} err == nil ==> calls(FingerprintFromHexString) == 1
+//@   after call Unmarshal ghost offer0 = message.Offer
+//@   ensures {returns-the-decoded-offer} err == nil ==> req.Offer == offer0
 //
 //@ func DecodeClientPollResponse(data []byte) (resp *ClientPollResponse, err error)
 //@   props C12
 //@   ensures {error-or-message} (err == nil) <==> (resp != nil)
 //@   ensures {neither-answer-nor-error-is-rejected} err == nil ==> resp.Error != "" || resp.Answer != ""
+//@   after call Unmarshal ghost jsonOK = ret0 == nil
+//@   after call Unmarshal ghost ans0 = message.Answer
+//@   after call Unmarshal ghost err0 = message.Error
+//@   ensures {returns-the-decoded-fields} err == nil ==> resp.Answer == ans0 && resp.Error == err0
+//@   ensures {accepts-every-response-with-answer-or-error} jsonOK && (ans0 != "" || err0 != "") ==> err == nil
+//
+// ---- encoders (C12): what is handed to encoding/json is exactly the caller's fields, with the protocol version ----
+//@ func EncodeProxyPollRequestWithRelayPrefix(sid string, proxyType string, natType string, clients int, relayPattern string) (r []byte, err error)
+//@   props C12
+//@   at call Marshal assert {marshals-the-callers-fields} unbox(arg0, ProxyPollRequest).Sid == sid && unbox(arg0, ProxyPollRequest).Type == proxyType && unbox(arg0, ProxyPollRequest).NAT == natType && unbox(arg0, ProxyPollRequest).Clients == clients && unbox(arg0, ProxyPollRequest).Version == version && unbox(arg0, ProxyPollRequest).AcceptedRelayPattern != nil && *unbox(arg0, ProxyPollRequest).AcceptedRelayPattern == relayPattern
+//
+//@ func EncodeAnswerRequest(answer string, sid string) (r []byte, err error)
+//@   props C12
+//@   at call Marshal assert {marshals-the-callers-fields} unbox(arg0, ProxyAnswerRequest).Sid == sid && unbox(arg0, ProxyAnswerRequest).Answer == answer && unbox(arg0, ProxyAnswerRequest).Version == version
+//
+//@ func EncodeAnswerResponse(success bool) (r []byte, err error)
+//@   props C12
+//@   at call Marshal assert {status-says-success-or-client-gone} unbox(arg0, ProxyAnswerResponse).Status == ite(success, "success", "client gone")
+//
+//@ func EncodePollResponseWithRelayURL(offer string, success bool, natType string, relayURL string, failReason string) (r []byte, err error)
+//@   props C12
+//@   at call Marshal#1 assert {match-carries-the-callers-fields} success && unbox(arg0, ProxyPollResponse).Status == "client match" && unbox(arg0, ProxyPollResponse).Offer == offer && unbox(arg0, ProxyPollResponse).NAT == natType && unbox(arg0, ProxyPollResponse).RelayURL == relayURL
+//@   at call Marshal#2 assert {no-match-carries-only-the-reason} !success && unbox(arg0, ProxyPollResponse).Status == failReason && unbox(arg0, ProxyPollResponse).Offer == ""
+//
+//@ func (req *ClientPollRequest) EncodeClientPollRequest() (r []byte, err error)
+//@   props C12
+//@   requires req != nil
+//@   at call Marshal assert {marshals-the-request-itself-with-the-default-bridge-filled-in} unbox(arg0, *ClientPollRequest) == req && req.Offer == entry(req.Offer) && req.NAT == entry(req.NAT) && req.Fingerprint == ite(entry(req.Fingerprint) == "", defaultBridgeFingerprint, entry(req.Fingerprint))
